@@ -181,6 +181,17 @@ func (t *tr) errStmts(ss []ast.Stmt, validCall string) string {
 				}
 			}
 		}
+		// a local: x := e
+		if len(s.Lhs) == 1 && len(s.Rhs) == 1 && s.Tok == token.DEFINE {
+			if id, ok := s.Lhs[0].(*ast.Ident); ok {
+				rhs := t.expr(s.Rhs[0])
+				if t.locals == nil {
+					t.locals = map[string]bool{}
+				}
+				t.locals[id.Name] = true
+				return "let " + id.Name + " := " + rhs + " in\n  " + t.errStmts(ss[1:], validCall)
+			}
+		}
 		return t.fail("unsupported assignment in an error-returning function")
 	case *ast.IfStmt:
 		if s.Init != nil || s.Else != nil {
